@@ -23,7 +23,7 @@ func init() { sim.Register(c06{}) }
 
 func (c06) ID() string     { return "C06" }
 func (c06) Level() string  { return "exploration" }
-func (c06) QuickRuns() int { return 20000 }
+func (c06) QuickRuns() int { return 160000 }
 func (c06) Rule() string {
 	return "each evaluation is one generated emitter history (1-70 ops, 0-10 labels, up to 14 label references of all nine reference methods, constructed distances -129,-128,-127,-1,0,+126,+127,+128 on both sides, Finalize at arbitrary points, duplicate labels, optional tight capacity, optional base) executed against asm.Emitter and the reference model, with the label-visiting order of every Finalize drawn from the task-local stream; distinct = distinct scenario hash; non-trivial = the history contains at least one failure event (failed Finalize, duplicate Label, refused emit) or a boundary distance"
 }
